@@ -226,6 +226,69 @@ func options(cfg Cfg) ([]exporterhelper.Option, error) {
 
 var cS = vt.New("C03", "shutdown-drain")
 
+// recoverAndExpect starts a second incarnation of the exporter on the storage the first one left behind, with a
+// healthy backend, and waits until every id of need has reached the export function.
+func recoverAndExpect(s *Script, rec *xh.Recorder, need map[int64]bool) *vt.Finding {
+	opts, err := options(s.Cfg)
+	if err != nil {
+		return vt.Failf("harness/config", "generated config rejected: %v", err)
+	}
+	var mu sync.Mutex
+	got := map[int64]bool{}
+	note := make(chan struct{}, 1)
+	push := func(_ context.Context, v any) error {
+		mu.Lock()
+		for _, it := range sig.Items(v) {
+			got[it.ID] = true
+		}
+		mu.Unlock()
+		select {
+		case note <- struct{}{}:
+		default:
+		}
+		return nil
+	}
+	rec2 := xh.NewRecorder(rec.Snapshot())
+	exp, err := xh.NewExporter(s.Cfg.Signal, xh.NopSettings(), push, opts...)
+	if err != nil {
+		return vt.Failf("harness/new", "NewExporter (second incarnation): %v", err)
+	}
+	if err := xh.StartThenCancel(exp, xh.HostWith(rec2)); err != nil {
+		return vt.Failf("harness/start", "Start (second incarnation): %v", err)
+	}
+	missing := func() []int64 {
+		mu.Lock()
+		defer mu.Unlock()
+		var out []int64
+		for id := range need {
+			if !got[id] {
+				out = append(out, id)
+			}
+		}
+		sort.Slice(out, func(i, j int) bool { return out[i] < out[j] })
+		return out
+	}
+	deadline := time.After(5 * time.Second)
+wait:
+	for len(missing()) > 0 {
+		select {
+		case <-note:
+		case <-time.After(time.Millisecond):
+		case <-deadline:
+			break wait
+		}
+	}
+	m := missing()
+	ok, _ := vt.WithWatchdog(15*time.Second, func() { _ = exp.Shutdown(context.Background()) })
+	if !ok {
+		return vt.Failf("shutdown-blocks/second-incarnation", "Shutdown of the second incarnation did not return; cfg %+v", s.Cfg)
+	}
+	if len(m) > 0 {
+		return vt.Failf("persistent-stored-but-not-recovered", "items %v were unfinished when Shutdown returned and their bodies are in the storage, but a second incarnation started on that storage never exports them (keys %v); cfg %+v", m, xh.Keys(rec.Snapshot()), s.Cfg)
+	}
+	return nil
+}
+
 func run(s Script) (nontrivial bool, key string, f *vt.Finding) {
 	b, _ := json.Marshal(s)
 	h := sha256.Sum256(b)
@@ -453,6 +516,28 @@ func runInner(s *Script) (bool, *vt.Finding) {
 				}
 				return true, vt.Failf("persistent-neither-finished-nor-stored", "request %d item %d: %d attempt(s), none final, and its body is not in storage after Shutdown; cfg %+v", ri, id, attempts[id], s.Cfg)
 			}
+		}
+	}
+	// "still durably stored for the next start": what was left unfinished must come out of a second incarnation
+	// started on the same storage (a body that merely sits in the storage while the indexes no longer lead to it
+	// is not stored for the next start)
+	if s.Cfg.Persistent {
+		need := map[int64]bool{}
+		for _, r := range reqs {
+			if !r.accepted {
+				continue
+			}
+			for _, id := range r.ids {
+				if !final[id] && stored[id] && !(s.Cfg.Retry && s.Cfg.MaxElapsMS > 0 && attempts[id] > 0) {
+					need[id] = true
+				}
+			}
+		}
+		if len(need) > 0 && !s.StorageCloseFails {
+			if f := recoverAndExpect(s, rec, need); f != nil {
+				return true, f
+			}
+			cS.Class("unfinished-requests-redelivered-by-next-incarnation")
 		}
 	}
 	// classes
